@@ -17,6 +17,7 @@ func init() {
 		c05TokenRace(c)
 		c.Flush(false)
 		runHistories(c, c.N(1200, 30000), "gating", gatingCfg)
+		runCross(c, c.N(120, 3000), "gating")
 	})
 	Register("C17", func(c *RunCtx) {
 		c17StatusTable(c)
@@ -38,6 +39,7 @@ func init() {
 		c04Enumerate(c)
 		c.Flush(false)
 		runHistories(c, c.N(1200, 30000), "gating", gatingCfg)
+		runCross(c, c.N(120, 3000), "gating")
 	})
 	Register("C06", func(c *RunCtx) { c06Enumerate(c) })
 	Register("C19", func(c *RunCtx) {
